@@ -9,6 +9,8 @@ import os
 import sys
 
 logging.disable(logging.CRITICAL)
+import warnings
+warnings.filterwarnings("ignore")
 
 # floogen prints to stdout on some error paths (RouteMap.pprint); keep the worker protocol clean
 _REAL_STDOUT = sys.stdout
